@@ -258,14 +258,20 @@ func randPayload(r *rand.Rand, depth int) types.Value {
 // history01 runs one history on a real writer and real readers.
 func history01(r *rand.Rand, hist map[string]int) (string, any, string, bool, string) {
 	g := theGate
+	nr := 1 + r.Intn(4)
+	w := packet.NewWriter()
+	// the gate holds notices for THIS writer only: a straggler of an earlier history (a goroutine spawned by a
+	// Reader.Close of its clean-up that reaches the gate late) must pass, not be counted as one of ours
 	g.mu.Lock()
 	g.own = map[*packet.Packet]bool{}
 	g.parked = nil
+	g.w = w
 	g.active = true
 	g.mu.Unlock()
 	defer func() {
 		g.mu.Lock()
 		g.active = false
+		g.w = nil
 		for _, p := range g.parked {
 			close(p.release)
 		}
@@ -273,11 +279,6 @@ func history01(r *rand.Rand, hist map[string]int) (string, any, string, bool, st
 		g.mu.Unlock()
 	}()
 
-	nr := 1 + r.Intn(4)
-	w := packet.NewWriter()
-	g.mu.Lock()
-	g.w = w
-	g.mu.Unlock()
 	var emitted []*packet.Packet
 	w.AddInboundHook(packet.HookFunc(func(p *packet.Packet) { emitted = append(emitted, p) }))
 	readers := make([]*packet.Reader, nr)
